@@ -266,6 +266,12 @@ class Engine(
                     # slice that might exist, and save those for the new outer
                     # query, since putting those in a subquery would destroy
                     # the ordering.
+                    if not select.sort.columns_required <= select.columns:
+                        # The outer query can only sort on the columns the
+                        # subquery exposes.
+                        raise RelationalAlgebraError(
+                            f"Applying {operation} to relation {select} will not preserve row order."
+                        )
                     subquery = select.reapply_skip(sort=None, slice=None)
                     return Select.apply_skip(
                         subquery,
